@@ -165,6 +165,10 @@ def parse_vspec(path):
             cur_fn["r12"] = True
         elif head == "r24":
             cur_fn["r24"] = True
+        elif head == "r26":
+            # r26 <loop ordinal> <elem type>: `for X in SET { B }` over a by-value HashSet -> indexed while loop over its elements (rule R26)
+            parts = rest.split()
+            cur_fn.setdefault("r26", {})[int(parts[0])] = parts[1]
         elif head == "r25":
             # r25 <ordinal> <<< proof text >>>: desugar the <ordinal>-th `E?` of the function (rule R25), with a proof block on its Err exit
             cur_fn.setdefault("r25", {})[int(rest)] = blk or ""
@@ -515,6 +519,26 @@ class UnitGen:
                 edits.append((qs, qe, f" return Err(vx_e{k}); }} }})", "R25"))
                 self.rewrites.append({"rule": "R25", "what": f"`E?` #{k} -> match E {{ Ok(v) => v, Err(e) => {{ return Err(e); }} }} in {qual}",
                                       "file": src.rel, "line": src.line_of(s0)})
+        # R26: `for X in S { B }` where S is an identifier holding a std HashSet<T> BY VALUE (T: Copy) and B has no break / continue /
+        # return / `?` -> `let vx_items = vx_set_into_vec(S); let mut vx_i: usize = 0; while vx_i < vx_items.len() { let X = vx_items[vx_i];
+        # B vx_i = vx_i + 1; }`: the definition of iterating a set (every element exactly once, in an unspecified order -- the trusted
+        # helper vx_set_into_vec returns the elements as a duplicate-free sequence in SOME order). The installed Verus has no
+        # specification for hash_set::IntoIter and the orphan rule forbids adding one. The loop keeps its ordinal.
+        if fs.get("r26"):
+            fors = {n["ord"]: n for n in nodes if n["kind"] == "for_parts" and not n["in_closure"]}
+            for lo, ety in sorted(fs["r26"].items()):
+                if lo not in fors:
+                    raise Undecided(f"fn {qual}: R26 loop {lo} is not a for loop (lost anchor)")
+                n = fors[lo]
+                if n["body_has_ctrl"] or not n["pat_is_ident"] or not n["expr_is_ident"]:
+                    raise Undecided(f"fn {qual}: R26 refused (pattern / iterable not plain identifiers, or the body has break/continue/return/?)")
+                X = src.text(*n["pat"]).strip(); S = src.text(*n["expr"]).strip()
+                fs_, fe_ = n["range"]; bs_, be_ = n["body"]
+                edits.append((fs_, bs_, f"let vx_items{lo}: Vec<{ety}> = vx_set_into_vec({S}); let mut vx_i{lo}: usize = 0; while vx_i{lo} < vx_items{lo}.len() ", "R26"))
+                edits.append((bs_ + 1, bs_ + 1, f" let {X} = vx_items{lo}[vx_i{lo}];", "R26"))
+                edits.append((be_ - 1, be_ - 1, f" vx_i{lo} = vx_i{lo} + 1; ", "R26"))
+                self.rewrites.append({"rule": "R26", "what": f"`for {X} in {S}` (HashSet by value) -> indexed while loop over vx_set_into_vec({S}) in {qual}",
+                                      "file": src.rel, "line": src.line_of(fs_)})
         # R18: `match E { P if G => A, _ => B }` (exactly these two arms) -> `if let P = E { if G { A } else { B } } else { B }`
         # (the installed Verus refuses a match arm that has both a guard and a by-mutable-reference binding). The guard is
         # evaluated exactly once on the path where P matches, as in the original; B is duplicated textually.
